@@ -175,6 +175,13 @@ def parse_ipv4(s):
     return v
 
 
+def lax_ipv4(s):
+    """Four dotted decimal numbers <= 255 with leading zeros allowed ("01.2.3.004"): a reg-name by the RFC 3986 grammar
+    that many resolvers take for an address (RFC 3986 7.4)."""
+    parts = s.split(".")
+    return len(parts) == 4 and all(p != "" and all(c in DIGIT for c in p) and int(p) <= 255 for p in parts)
+
+
 def parse_ipv6(s):
     """RFC 3986 IPv6address -> 128 bit int or None."""
     if s.count("::") > 1 or ":::" in s:
@@ -438,7 +445,8 @@ Decomp = namedtuple("Decomp", "scheme host uri_host uri_host_alt port effport pa
 # port: int or None as written; effport: port or the scheme default; path/query: tuples of text;
 # path_literal: the segments if dot segments were NOT removed (== path when there are none);
 # ambiguous_host: a reg-name with escapes that decodes to an IPv4address ("%31.2.3.4": a name by the grammar, an address
-# after RFC 3986 6.2.2.2 normalisation) or to a complete IP-literal ("%5B%3A%3A1%5D": a name by the grammar, but its
+# after RFC 3986 6.2.2.2 normalisation; likewise "01%2E2.3.4" for those who take "01.2.3.4" for an address, RFC 3986 7.4)
+# or to a complete IP-literal ("%5B%3A%3A1%5D": a name by the grammar, but its
 # Uri-Host value "[::1]" is what RFC 7252 6.5 step 3 composes as the IP-literal [::1]); callers should not judge such text;
 # escaped_dots: a segment is written %2E / %2E%2E / .%2E ...: .path is the normalised reading (RFC 3986 2.3, 6.2.2.2,
 # 6.2.2.3: such a segment *is* a dot segment and is removed); .path_literal keeps them as "." / ".." values, which
@@ -511,7 +519,7 @@ def decompose(text, iri=False):
         path_kept = _segments(remove_dot_segments(p.path))
     except Reject:
         path_kept = None
-    ambiguous_host = host.kind == "name" and "%" in p.host and (parse_ipv4(uri_host) is not None or is_ip_literal_text(uri_host))
+    ambiguous_host = host.kind == "name" and "%" in p.host and (lax_ipv4(uri_host) or is_ip_literal_text(uri_host))
     return Decomp(scheme, host, uri_host, uri_host_alt, port, port if port is not None else DEFAULT_PORT[scheme], path, query, p.query is not None, path_literal, escaped_dots, ambiguous_host, path_kept)
 
 
@@ -740,6 +748,8 @@ def selftest():
     for bad in ["[::1]junk:5684", "junk[::1]:5684", "[::1]]", "[fe80::1%eth0]x:1", "[[::1]]", "[::1]:1:2", "a@[::1]", "[::1", "::1]"]:
         assert not hostinfo_wellformed(bad), bad
     assert classify("coap://h:1 2/")[0] == "notauri" and classify("coap://h:1a/") == ("reject", "port-non-numeric")
+    assert decompose("coap://01%2E2.3.4/").ambiguous_host and not decompose("coap://01.2.3.4/").ambiguous_host and not decompose("coap://256%2E2.3.4/").ambiguous_host
+    assert lax_ipv4("01.2.3.004") and lax_ipv4("1.2.3.4") and not lax_ipv4("1.2.3") and not lax_ipv4("1..2.3") and not lax_ipv4("1.2.3.256") and not lax_ipv4("1.2.3.4a")
     assert decompose("coap://%31.2.3.4/").ambiguous_host and not decompose("coap://1.2.3.4/").ambiguous_host and not decompose("coap://h%31/").ambiguous_host
     assert decompose("coap://h/a%FF/../b").path == ("b",) and decompose("coap://h/a%FF/../b").path_literal is None
     assert decompose("coap://h/a/../b/./c").path == ("b", "c") and decompose("coap://h/a/../b/./c").path_literal == ("a", "..", "b", ".", "c")
